@@ -3,6 +3,8 @@
 -/
 import PasfmtModel.Proofs.ReconProps
 import PasfmtModel.Proofs.PipelineC01
+import PasfmtModel.Proofs.PipelineC07
+import PasfmtModel.Model.Contracts
 
 namespace Pasfmt.C07
 
@@ -62,6 +64,43 @@ theorem commentFormat_keeps_ignored (U : Bytes → Bool) (t : FTok) (h : t.fmt.i
     commentFormatTok U t = t := by
   unfold commentFormatTok
   split <;> (try split) <;> first | exact setContent_ignored _ _ h | rfl
+
+/-- the executable per-case check (part of the `wc` field) implies the wrapper hypothesis of `C07_format` -/
+theorem wrapIgnoredB_sound (ft ft' : FT) (h : wrapIgnoredB ft ft' = true) :
+    All2 (fun (t t' : FTok) => t'.fmt.ignored = t.fmt.ignored ∧
+      (t.fmt.ignored = true → t'.tok.ws = t.tok.ws ∧ t'.tok.content = t.tok.content)) ft ft' := by
+  unfold wrapIgnoredB at h
+  induction ft generalizing ft' with
+  | nil =>
+    cases ft' with
+    | nil => exact .nil
+    | cons _ _ => simp [all2B] at h
+  | cons t r ih =>
+    cases ft' with
+    | nil => simp [all2B] at h
+    | cons t' r' =>
+      simp only [all2B, Bool.and_eq_true, Bool.or_eq_true, beq_iff_eq, Bool.not_eq_true'] at h
+      refine .cons ⟨h.1.1, ?_⟩ (ih r' h.2)
+      intro hig
+      rcases h.1.2 with e | e
+      · rw [hig] at e; simp at e
+      · exact e
+
+/-- **C07 for the whole pipeline**: for every input, every configuration, every parser behaviour and
+    every wrapper behaviour that keeps ignored tokens, a run `[a, b)` of tokens that are all marked by
+    the ignorers (between `pasfmt off` and `pasfmt on`, or an asm instruction line) is found in the
+    output, contiguously, with exactly its scanned whitespace and text — provided the safety-net
+    line break does not fire inside the run (`safeRun`, decidable; `safeRun_of_breaks`; the
+    exception is known finding F4). -/
+theorem C07_format (cfg : Config) (O : Oracles) (hK : WrapKeepsIgnored O) (s : Bytes) (raw : List RawTok)
+    (hl : lex s = some raw) (a b : Nat) (hab : a ≤ b) (hb : b ≤ raw.length)
+    (hmark : ∀ i, a ≤ i → i < b → (preWrap O raw).1.getD i false = true)
+    (hsafe : safeRun (mbAfter false ((O.wrap cfg (preWrap O raw).2.1 (preWrap O raw).2.2).take a))
+      (((O.wrap cfg (preWrap O raw).2.1 (preWrap O raw).2.2).take b).drop a) = true) :
+    ∃ (out before after : Bytes), format cfg O s = some out ∧
+      out = before ++ ((raw.take b).drop a).flatMap (fun r => r.ws ++ r.content) ++ after := by
+  obtain ⟨before, after, h⟩ := formatTokens_verbatim cfg O hK raw a b hab hb hmark hsafe
+  exact ⟨formatTokens cfg O raw, before, after, by unfold format; rw [hl]; rfl, h⟩
 
 -- Tests (labelled as tests, not the unbounded claim): toggle spellings.
 -- '// pasfmt off'
